@@ -613,6 +613,43 @@ def gen_prog(rng, size="small"):
     return {"qregs": qregs, "cregs": cregs, "gates": gates, "ops": ops}
 
 
+# the same parametrised user gate applied several times with parameter values that agree to 5-8 significant digits
+NEAR = [("1000000", "1000003"), ("1234567", "2469137/2"), ("1", "10000001/10000000"), (None, "314159265/100000000"),
+        ("1/2", "50000004/100000000"), ("5/2", "25000002/10000000"), ("1234567/10", "1234569/10"), ("7", "700000003/100000000"),
+        ("1000000", "100000001/100")]
+NEAR_DEFS = [
+    {"name": "rot", "params": ["t"], "qubits": ["a"], "body": [{"call": "rx", "args": [["id", "t"]], "qs": ["a"]}]},
+    {"name": "crx", "params": ["theta"], "qubits": ["a", "b"],
+     "body": [{"call": "cu3", "args": [["id", "theta"], ["neg", ["div", ["pi"], ["num", "2"]]], ["div", ["pi"], ["num", "2"]]], "qs": ["a", "b"]}]},
+    {"name": "cry", "params": ["theta"], "qubits": ["a", "b"],
+     "body": [{"call": "cu3", "args": [["id", "theta"], ["num", "0"], ["num", "0"]], "qs": ["a", "b"]}]},
+    {"name": "two", "params": ["x", "y"], "qubits": ["a", "b"],
+     "body": [{"call": "ry", "args": [["id", "x"]], "qs": ["a"]}, {"call": "crz", "args": [["add", ["id", "x"], ["id", "y"]]], "qs": ["b", "a"]}]},
+]
+
+
+def gen_near_prog(rng):
+    d = json.loads(json.dumps(rng.choice(NEAR_DEFS)))
+    nq = len(d["qubits"])
+    n = rng.randint(max(2, nq), 4)
+    qregs = [["q", n]]
+    cregs = [["c", 1]] if rng.random() < 0.3 else []
+    a, b = rng.choice(NEAR)
+    va = ["pi"] if a is None else ["num", a]
+    vals = [va, ["num", b]] + ([va] if rng.random() < 0.3 else [])
+    rng.shuffle(vals)
+    ops = []
+    for v in vals:
+        args = [v] if len(d["params"]) == 1 else ([v, ["num", "1/4"]] if rng.random() < 0.5 else [["num", "1/4"], v])
+        o = {"app": d["name"], "args": args, "qs": [["q", i] for i in rng.sample(range(n), nq)]}
+        if cregs and rng.random() < 0.3:
+            o["if"] = ["c", 0]
+        ops.append(o)
+        if rng.random() < 0.3:
+            ops.append({"app": "h", "args": [], "qs": [["q", rng.randrange(n)]]})
+    return {"qregs": qregs, "cregs": cregs, "gates": [d], "ops": ops}
+
+
 # systematic malformed variants ---------------------------------------------------------------------------------
 KINDS = ["undeclared_gate", "undeclared_qreg", "index_out_of_range", "repeated_qubit", "arity_qubits_more", "arity_qubits_less",
          "arity_params_more", "arity_params_less", "reset", "opaque", "power", "function", "unknown_identifier",
@@ -826,6 +863,8 @@ def _stream(ctx, n_valid, n_bad, n_layout):
             cases.append(("corpus", inp["prog"], inp.get("layout", "canonical")))
     for _ in range(n_valid):
         cases.append(("valid", gen_prog(rng, "small" if rng.random() < 0.7 else "large"), "canonical"))
+    for _ in range(30 if n_valid < 1000 else 200):
+        cases.append(("near_params", gen_near_prog(rng), "canonical"))
     for i in range(n_bad):
         for _ in range(200):
             m = mutate(rng, gen_prog(rng), KINDS[i % len(KINDS)])
